@@ -593,7 +593,9 @@ pub fn json_object(rng: &mut Rng, members: &[(String, String)]) -> Vec<u8> {
             out.push(',');
         }
         out.push_str(ws(rng));
-        out.push_str(k);
+        let mut dummy = vec![];
+        let kq = if rng.chance(1, 10) { json_string(rng, k, &mut dummy) } else { format!("\"{}\"", k) };
+        out.push_str(&kq);
         out.push_str(ws(rng));
         out.push(':');
         out.push_str(ws(rng));
@@ -606,28 +608,28 @@ pub fn json_object(rng: &mut Rng, members: &[(String, String)]) -> Vec<u8> {
 
 pub fn bj_members(rng: &mut Rng, v: &BodyVals, tags: &mut Vec<String>) -> Vec<(String, String)> {
     let mut m = vec![
-        (json_string(rng, "s", tags), sv_json(rng, &v.s, tags)),
-        ("\"n\"".to_string(), sv_json(rng, &v.n, tags)),
-        ("\"big\"".to_string(), sv_json(rng, &v.big, tags)),
-        ("\"b\"".to_string(), sv_json(rng, &v.b, tags)),
-        ("\"c\"".to_string(), sv_json(rng, &v.c, tags)),
-        ("\"e\"".to_string(), sv_json(rng, &v.e, tags)),
-        ("\"l\"".to_string(), format!("[{}]", v.l.iter().map(|x| x.to_string()).collect::<Vec<_>>().join(" , "))),
+        ("s".to_string(), sv_json(rng, &v.s, tags)),
+        ("n".to_string(), sv_json(rng, &v.n, tags)),
+        ("big".to_string(), sv_json(rng, &v.big, tags)),
+        ("b".to_string(), sv_json(rng, &v.b, tags)),
+        ("c".to_string(), sv_json(rng, &v.c, tags)),
+        ("e".to_string(), sv_json(rng, &v.e, tags)),
+        ("l".to_string(), format!("[{}]", v.l.iter().map(|x| x.to_string()).collect::<Vec<_>>().join(" , "))),
     ];
     match &v.o {
-        Some(o) => m.push(("\"o\"".to_string(), sv_json(rng, o, tags))),
+        Some(o) => m.push(("o".to_string(), sv_json(rng, o, tags))),
         None => {
             if rng.chance(1, 2) {
-                m.push(("\"o\"".to_string(), "null".to_string()));
+                m.push(("o".to_string(), "null".to_string()));
                 tags.push("json:null-option".into());
             }
         }
     }
     if let Some(d) = &v.d {
-        m.push(("\"d\"".to_string(), sv_json(rng, d, tags)));
+        m.push(("d".to_string(), sv_json(rng, d, tags)));
     }
     if rng.chance(1, 5) {
-        m.push(("\"unknown\"".to_string(), "{\"x\":[1,2,{\"y\":null}]}".to_string()));
+        m.push(("unknown".to_string(), "{\"x\":[1,2,{\"y\":null}]}".to_string()));
         tags.push("field:unknown-key".into());
     }
     m
@@ -930,7 +932,7 @@ pub fn all_case(rng: &mut Rng, uniq: &str, group: &'static str) -> Case {
     target.push(b'?');
     target.extend_from_slice(&qs);
     let btag_json = json_string(rng, &btag, &mut tags);
-    let body = json_object(rng, &[("\"tag\"".to_string(), btag_json), ("\"n\"".to_string(), bn.to_string())]);
+    let body = json_object(rng, &[("tag".to_string(), btag_json), ("n".to_string(), bn.to_string())]);
     let oracle = tag_oracle(&body);
     let framing = gen_framing(rng, body.len(), &mut tags);
     let ct = ct_for(rng, "application/json", true, &mut tags);
